@@ -4,7 +4,7 @@
 # usage: tools/benign_eval.sh <area> <k>      (reads /tmp/wb_<area>/out/benign<k>.diff)
 set -u
 A="$1"; K="$2"
-SRC=/tmp/wb_$A/out
+SRC=${WB_PREFIX:-/tmp/wb_}$A/out
 cd /repo || exit 2
 git diff --quiet || { echo "/repo dirty"; exit 2; }
 git apply $SRC/benign$K.diff || { echo "[$A-$K] patch does not apply"; exit 2; }
